@@ -280,3 +280,11 @@ impl<'a> ast::Int<'a> {
 pub uninterp spec fn paren_args_s<'a>(args: &'a SyntaxNode) -> Seq<ast::Arg<'a>>;
 /// source text of the callee of a call
 pub uninterp spec fn callee_text_s(call: &SyntaxNode) -> Seq<char>;
+impl<'a> ast::Raw<'a> {
+    pub uninterp spec fn block_s(self) -> bool;
+    #[verifier::external_body]
+    pub fn block(self) -> (r: bool) ensures r == self.block_s() { unimplemented!() }
+    #[verifier::external_body]
+    pub fn lines(self) -> (r: VpIter<ast::Text<'a>>) requires self.wf(), tree_wf(self.0)
+        ensures forall|k: int| 0 <= k < r.rest().len() ==> (#[trigger] r.rest()[k]).wf() && is_child_of(r.rest()[k].node(), self.0) { unimplemented!() }
+}
